@@ -489,11 +489,19 @@ fn check_stmt_requires_semicolon(
     // Need to check next statement if it is a function call, with a parameters expression as the prefix
     // If so, removing a semicolon may lead to ambiguous syntax
     // Ambiguous syntax can only occur if the current statement is a (Local)Assignment, FunctionCall or a Repeat block
-    match stmt {
+    let ends_with_expression = match stmt {
         Stmt::Assignment(_)
         | Stmt::LocalAssignment(_)
         | Stmt::FunctionCall(_)
-        | Stmt::Repeat(_) => match next_stmt {
+        | Stmt::Repeat(_) => true,
+        // `x += y; (f)()` is just as ambiguous as `x = y; (f)()`
+        #[cfg(feature = "luau")]
+        Stmt::CompoundAssignment(_) => true,
+        _ => false,
+    };
+
+    match ends_with_expression {
+        true => match next_stmt {
             Some((Stmt::FunctionCall(function_call), _)) => match function_call.prefix() {
                 Prefix::Expression(expression) => {
                     matches!(&**expression, Expression::Parentheses { .. })
@@ -510,7 +518,7 @@ fn check_stmt_requires_semicolon(
             }
             _ => false,
         },
-        _ => false,
+        false => false,
     }
 }
 
